@@ -250,6 +250,19 @@ impl VoiceOracle {
                                 model.ring = vec![0.0; nv.n as usize];
                                 model.w = 0;
                             }
+                            crate::voices::Kind::FeedDly => {
+                                // children: the `self` cell and the delay line (in whichever order
+                                // the skeleton lists them). The `self` cell continues; a delay
+                                // line of another length is a new cell and starts from zero.
+                                let fd = "F1".to_string();
+                                let od: Vec<&String> = oc.iter().filter(|c| **c != fd).collect();
+                                let nd: Vec<&String> = nc.iter().filter(|c| **c != fd).collect();
+                                if od.len() != 1 || nd.len() != 1 || od[0] == nd[0] {
+                                    known = false;
+                                }
+                                model.ring = vec![0.0; nv.n as usize];
+                                model.w = 0;
+                            }
                             _ => known = false,
                         }
                     }
